@@ -18,7 +18,7 @@ Mirrors the code as it is: factor lists are canonicalised by a *stable* sort wit
 `TVar < BaseDimension < TPar` (type variables by the derived order of `TypeVariable`: `Named` before
 `Quantified`, names as strings — `"T10" < "T2"`), merging of adjacent equal factors and removal of zero
 exponents; a type parameter `D` is looked up in a substitution under the name `Named "D"`; `Dimension [v¹]` is
-replaced by whatever `v` is mapped to; `Substitution::extend` unwraps (`panic`).  Exponents are exact rationals
+replaced by whatever `v` is mapped to; `Substitution::extend` propagates the error.  Exponents are exact rationals
 (core `Rat`): overflow of numbat's `Ratio<i128>` is outside this model (it belongs to C08).
 Struct types and `HasField` are not modelled.
 -/
@@ -267,15 +267,16 @@ def TyL.apply (s : Subst) : TyL → Except Ty TyL
       | .ok ts' => .ok (.cons t' ts'))
 end
 
-/-- `Substitution::extend`; `none` = the `unwrap()` on a substitution error panics -/
-def Subst.extend : Subst → Subst → Option Subst
-  | [], other => some other
+/-- `Substitution::extend`: the new substitution is applied to every collected binding, the first
+substitution error is returned (before the repair of the `unwrap()` it was a panic) -/
+def Subst.extend : Subst → Subst → Except Ty Subst
+  | [], other => .ok other
   | (v, t) :: rest, other =>
     match Ty.apply other t with
-    | .error _ => none
+    | .error e => .error e
     | .ok t' => (match Subst.extend rest other with
-      | none => none
-      | some rest' => some ((v, t') :: rest'))
+      | .error e => .error e
+      | .ok rest' => .ok ((v, t') :: rest'))
 
 /-! ## constraints -/
 
@@ -459,8 +460,8 @@ def solveLoop : Nat → List Constraint → Subst → SolveResult
       | .error t => .substError t
       | .ok cs' =>
         match s.extend s1 with
-        | none => .panic
-        | some s' => solveLoop fuel cs' s'
+        | .error t => .substError t
+        | .ok s' => solveLoop fuel cs' s'
 
 def solve (fuel : Nat) (cs : List Constraint) : SolveResult := solveLoop fuel cs []
 
